@@ -48,14 +48,17 @@ ENGINE = "direct"
 TECHNIQUE = "differential against two strict X.509 verifiers (cryptography, OpenSSL X509_STRICT) + construction-time identity sets"
 BUDGET = {"quick": (900, 18), "thorough": (60_000, 200)}
 WORKERS = {"quick": 2, "thorough": 16}
-REQUIRED = ["issued_by_ca", "valid_now", "server_auth", "strict_verify_cryptography", "strict_verify_openssl", "names_subset", "handshake_verified"]
+REQUIRED = ["issued_by_ca", "valid_now", "server_auth", "strict_verify_cryptography", "strict_verify_openssl", "names_subset", "handshake_verified", "stale_custom_cert_checked"]
 RULE = (
     "case = (SNI class: short / random host / 63-byte label / 253-byte name / name longer than a CN / A-label / mixed case / "
     "trailing dot / underscore / IPv4 / IPv6 literal / absent with IPv4, IPv6, v4-mapped or scoped local address) x (server "
     "address: none / same or other host name / U-label / IPv4 / IPv6) x (upstream certificate: none / option off / CN only / CN+SAN / "
     "mixed SAN types incl. wildcard, IP, email, URI, directoryName / CN with spaces, non-ASCII, empty label, 64-byte label / no CN / "
     "organization / CRL distribution point valid, unparsable, ldap, scheme-less / SANs mirroring the connection's own identities in "
-    "the wrong GeneralName type (IP literal as dNSName), in another letter case, or duplicated across CN and SAN) x (CA: mitmproxy default / custom root + "
+    "the wrong GeneralName type (IP literal as dNSName), in another letter case, or duplicated across CN and SAN) x (optional runtime "
+    "history of the `certs` option through the real configure(): add / replace / remove of custom certificates registered by exact, "
+    "wildcard, '*', bare-file, SAN or CN, after which the connection's SNI, server address or upstream SAN hits the spec that is "
+    "no longer configured; a still-configured spec is a control and exempt) x (CA: mitmproxy default / custom root + "
     "intermediate with non-SHA1 key identifier) x (observation: get_cert, or tls_start_client + in-memory strict handshake). "
     "distinct = that class tuple; non-trivial = a certificate was produced and both legs of strict verification were evaluated, "
     "or get_cert raised"
@@ -316,6 +319,7 @@ def state():
         roots={"default": root_default, "custom": pki.root_a},
         rootfiles={"default": str(rd), "custom": str(pki.cafile_a)},
         inters={"default": [], "custom": [icert]},
+        confdirs={"default": str(d_default), "custom": str(d_custom)},
         upstream_opt=None,
     )
     return _STATE
@@ -541,18 +545,78 @@ def classify(kind, up_k, up_cn, sni_k, exc=None):
 
 # ---------------------------------------------------------------------------------------------
 
+def gen_certs_history(r, pki):
+    """A runtime history of the `certs` option (add / replace / remove of custom certificates) and a victim name that
+    was covered by a spec which is no longer configured at the end (or, control, still is).
+
+    -> (kind, spec form, [certs option values in order], victim name, covered_at_end: bool, custom cert)
+    Victim names live under .gone.test, surviving specs under .kept.test, so coverage at the end is known by construction."""
+    v = f"{rl(r)}.{rl(r)}.gone.test"
+    k_name = f"{rl(r)}.{rl(r)}.kept.test"
+    form = r.choice(["exact", "wildcard", "star", "bare-file", "via-san", "via-cn"])
+    if form in ("via-san", "via-cn"):
+        cert_v = pki.leaf(cn=v if form == "via-cn" else "custom leaf", sans=[f"dns:{v}"] if form == "via-san" else [f"dns:other.{rl(r)}.gone.test"], issuer="root_b")
+    else:
+        cert_v = pki.leaf(cn="custom leaf", sans=[f"dns:{v}", "dns:*." + v.partition(".")[2]], issuer="root_b")
+    f_v = pki.chain_file([cert_v])
+    spec_v = {
+        "exact": f"{v}={f_v}", "wildcard": f"*.{v.partition('.')[2]}={f_v}", "star": f"*={f_v}", "bare-file": str(f_v),
+        "via-san": f"unrelated.{rl(r)}.gone.test={f_v}", "via-cn": f"unrelated.{rl(r)}.gone.test={f_v}",
+    }[form]
+    cert_k = pki.leaf(cn="kept leaf", sans=[f"dns:{k_name}"], issuer="root_b")
+    spec_k = f"{k_name}={pki.chain_file([cert_k])}"
+    kind = r.choice(["add-remove", "add-remove", "add-replace", "add2-remove1", "add-remove-add-other", "kept-control"])
+    if kind == "add-remove":
+        steps = [[spec_v], []]
+    elif kind == "add-replace":
+        steps = [[spec_v], [spec_k]]
+    elif kind == "add2-remove1":
+        steps = [[spec_k, spec_v] if r.random() < 0.5 else [spec_v, spec_k], [spec_k]]
+    elif kind == "add-remove-add-other":
+        steps = [[spec_v], [], [spec_k]]
+    else:
+        return kind, "exact", [[spec_k]], k_name, True, cert_k
+    return kind, form, steps, v, False, cert_v
+
+
 def run_case(ctx, r):
     st = state()
     pki, ta, tctx = st["pki"], st["ta"], st["tctx"]
     sni_k, sni, sock = gen_sni(r)
     addr_k, addr = gen_addr(r, sni)
-    up_k, upstream, use_opt = gen_upstream(r, pki, sni, sock, addr)
     ca_k = r.choice(["default", "default", "custom"])
     via_hook = r.random() < 0.3
+    hist = None
+    if r.random() < 0.15:
+        # runtime history over the `certs` option; the connection then hits the name of a spec that was configured earlier
+        hist = gen_certs_history(r, pki)
+        route = r.choice(["sni", "sni", "address", "upstream-san"]) if not hist[4] else "sni"
+        if route == "sni":
+            sni_k, sni, sock = "hist-victim", hist[3], "127.0.0.1"
+            if addr_k == "same":
+                addr = (sni, 443)
+        elif route == "address":
+            addr_k, addr = "hist-victim", (hist[3], 443)
+    up_k, upstream, use_opt = gen_upstream(r, pki, sni, sock, addr)
+    if hist is not None and route == "upstream-san":
+        up_k, upstream, use_opt = "hist-victim", pki.leaf(cn=rhost(r), sans=[f"dns:{rhost(r)}", f"dns:{hist[3]}"], issuer="root_b"), True
     if st["upstream_opt"] != use_opt:
         tctx.options.update(upstream_cert=use_opt)
         st["upstream_opt"] = use_opt
-    ta.certstore = st["stores"][ca_k]
+    if hist is None:
+        ta.certstore = st["stores"][ca_k]
+    else:
+        # real option updates through TlsConfig.configure; the store in use is the one the addon builds itself
+        ctx.count("certs_option_histories")
+        first = True
+        for val in hist[2]:
+            kw = {"certs": list(val)}
+            if first and tctx.options.confdir != st["confdirs"][ca_k]:
+                kw["confdir"] = st["confdirs"][ca_k]
+            if first and list(tctx.options.certs) == list(val) and "confdir" not in kw:
+                tctx.options.update(certs=[])  # make sure the first step is a real change
+            first = False
+            tctx.options.update(**kw)
     client = connection.Client(peername=("198.51.100.7", 51234), sockname=(sock, 8080), timestamp_start=1.0, state=connection.ConnectionState.OPEN)
     client.sni = sni
     cx = context.Context(client, tctx.options)
@@ -573,6 +637,9 @@ def run_case(ctx, r):
         "ca": ca_k, "via": "tls_start_client" if via_hook else "get_cert", "identity": ident,
     }
     sig = (sni_k, addr_k, up_k, ca_k, "hook" if via_hook else "get")
+    if hist is not None:
+        w["certs_option_history"] = {"kind": hist[0], "spec_form": hist[1], "steps": [[x.rpartition("/")[0].rpartition("=")[0] + "=<file>" if "=" in x else "<file>" for x in v] for v in hist[2]], "victim": hist[3], "route": route, "covered_by_current_certs": hist[4]}
+        sig = (*sig, "hist", hist[0], hist[1], route)
     ctx.count("total")
     ssl_conn = None
     try:
@@ -592,6 +659,12 @@ def run_case(ctx, r):
         ctx.violation(f"get_cert-raises:{type(e).__name__}@{exc_site(e)}", {**w, "exc": repr(e)[:300], "tb": traceback.format_exc()[-700:]}, mech)
         return (*sig, "raise"), True, w
     leaf = entry.cert.to_cryptography()
+    if hist is not None and hist[4]:
+        ctx.count("custom_cert_current_control")
+        ctx.seen("custom_cert_current_control", "served" if leaf == hist[5] else "not served")
+        return (*sig, "custom-current"), True, {"sni": sni, "certs_option_history": w["certs_option_history"]}
+    if hist is not None:
+        ctx.count("stale_custom_cert_checked")
     ca_cert = st["stores"][ca_k].default_ca.to_cryptography()
     root = st["roots"][ca_k]
     inters = st["inters"][ca_k]
